@@ -122,6 +122,36 @@ def SeqSys.release (s : SeqSys) (id : Nat) (out : TxnOut) : SeqSys × SeqRes :=
         let st := if num == o.leased then some o.next else some num
         ({ s.put { o with leased := o.next } with stored := st }, .ok)
 
+/-- `Release ‖ Next` on ONE object. `Next` and `Release` both hold `seq.lock` from their first to
+    their last statement (`seq.lock.Lock(); defer seq.lock.Unlock()`), the `db.Update`
+    transaction included, so two calls on the same object are atomic sections: the only
+    schedules are the two serial orders. The harness starts `Release`, parks it inside its
+    transaction, then calls `Next`: under the lock `Next` waits (`sched=blocked`) and the
+    outcome is `Release` followed by `Next`. -/
+def SeqSys.releaseThenNext (lf : LeaseFn) (s : SeqSys) (id : Nat) : SeqSys × SeqRes × SeqRes :=
+  let (s1, r1) := s.release id .ok
+  let (s2, r2) := s1.next lf id .ok
+  (s2, r1, r2)
+
+/-- NOT a behaviour of the code: what a `Next` served from memory *between* Release's read of
+    `seq.next / seq.leased` and its write-back would do if `Release` did not hold `seq.lock`
+    across its transaction (snapshot; `Next` hands out the snapshotted `next`; the snapshot is
+    written back and becomes the lease bound). Used only to show that the lock is load-bearing
+    (`C30_release_lock_needed`). -/
+def SeqSys.releaseInterleavedNext (s : SeqSys) (id : Nat) : SeqSys :=
+  match s.find id with
+  | none => s
+  | some o =>
+    if o.next < o.leased then
+      let n := o.next
+      let l := o.leased
+      let st := match s.stored with
+        | some num => if num == l then some n else some num
+        | none => none
+      { s.put { o with next := u64 (n + 1), leased := n } with
+        stored := st, handed := s.handed ++ [(id, n)] }
+    else s
+
 /-- restart or crash: every in-memory object is gone, the stored value stays. -/
 def SeqSys.restart (s : SeqSys) : SeqSys := { s with objs := [] }
 
